@@ -198,7 +198,10 @@ def mc_family(tier):
              path([dict(DOS), ab[0], dict(DOS), ab[1]], start=idh), path([], abs_=True)]
     for t in (t_name("a"), T_ANY, T_NODE, T_TEXT):
         for ps in ([num(1), MC_PREDS[2]], [MC_PREDS[2], num(1)], [fn("last"), fn("last")], [num(2)], [bin_(">", fn("position"), num(1))],
-                   [bin_(">", fn("position"), num(1)), num(1)], [fn("count", path([step("child", T_ANY)]))], [fn("not", MC_PREDS[2])]):
+                   [bin_(">", fn("position"), num(1)), num(1)], [fn("count", path([step("child", T_ANY)]))], [fn("not", MC_PREDS[2])],
+                   [bin_("=", fn("position"), num(2))] * 2, [bin_(">", fn("position"), num(1)), bin_("=", fn("position"), num(2))],
+                   [bin_("=", fn("position"), fn("last")), bin_("!=", fn("position"), num(1))],
+                   [bin_(">", fn("position"), num(1)), MC_PREDS[2], bin_("=", fn("position"), num(2))]):
             pats.append(path([step("child", t, *ps)]))
             pats.append(path([step("child", t, *ps), dict(DOS), step("child", t_name("b"))]))
             pats.append(path([step("child", t_name("a")), step("child", t, *ps)]))
